@@ -57,6 +57,10 @@ func TestVF_C41_RaceStress(t *testing.T) {
 		store := vfStoreWithTopics(map[string]int32{topic: int32(p.Partitions)})
 		obj := vfkit.NewObjStore()
 		h := vfNewHandler(store, obj, vfHandlerOpts{SegmentBytes: p.SegBytes, CacheBytes: p.CacheBytes, ReadAhead: p.ReadAhead, NoS3Backpressure: true})
+		var topicID [16]byte
+		if meta, err := store.Metadata(context.Background(), []string{topic}); err == nil && len(meta.Topics) == 1 {
+			topicID = meta.Topics[0].TopicID
+		}
 		type sent struct {
 			raw  []byte
 			base int64
@@ -110,7 +114,14 @@ func TestVF_C41_RaceStress(t *testing.T) {
 				off := int64(0)
 				for it := 0; it < 400 && !(done.Load() && it > 50); it++ {
 					m := []int32{64, 300, 4000}[it%3]
-					fr, err := vfFetch(h, 11, topic, part, off, m)
+					var fr vfFetchResult
+					var err error
+					if it%4 == 3 {
+						// Fetch v13 names the topic by id
+						fr, _, err = c03hFetchByID(h, topicID, part, off, m)
+					} else {
+						fr, err = vfFetch(h, 11, topic, part, off, m)
+					}
 					ops[part].Add(1)
 					if err != nil {
 						addErr(fmt.Sprintf("fetch transport error: %v", err))
